@@ -214,7 +214,7 @@ Definition set_static (runid : Z) (w : world) (r : row) : row :=
 
 Definition set_override (runid : Z) (w : world) (r : row) : row :=
   let r1 := update_stamp runid w r in
-  upd_row r1 (r_gen r1) true (r_checked r1) (r_changed r1) None (r_stamp r1) (r_csum r1).
+  upd_row r1 (r_gen r1) true (r_checked r1) (r_changed r1) None (r_stamp r1) None.   (* the checksum is forgotten *)
 
 Definition geb_runid (x : option Z) (runid : Z) : bool :=
   match x with Some v => negb (Z.eqb v 0) && Z.leb runid v | None => false end.
